@@ -54,10 +54,18 @@ def rule_dispatch(ck):
     for k, v in dict_literal_items(tabs[0].value):
         keys.append(k)
         oo = ck.ob('C19-D1.entry', f, k, v)
-        if not isinstance(v, ast.Dict):
-            oo.fail('entry is not a {class, loader} dictionary')
+        if isinstance(v, ast.Tuple) and len(v.elts) == 2:
+            # (class, loader) pairs: the order is fixed by how the entry is unpacked where it is used
+            unp = [a_ for a_ in all_nodes(f) if isinstance(a_, ast.Assign) and isinstance(a_.targets[0], ast.Tuple) and len(a_.targets[0].elts) == 2
+                   and isinstance(a_.value, ast.Subscript) and u(a_.value.value) == u(tabs[0].targets[0])]
+            names = [u(e_).lower() for e_ in unp[0].targets[0].elts] if unp else ['class', 'loader']
+            ci = 0 if 'class' in names[0] or 'cls' in names[0] else 1
+            ent = {'class': v.elts[ci], 'loader': v.elts[1 - ci]}
+        elif isinstance(v, ast.Dict):
+            ent = dict(dict_literal_items(v))
+        else:
+            oo.fail('entry is not a {class, loader} dictionary or a (class, loader) pair')
             continue
-        ent = dict(dict_literal_items(v))
         cls_, ld = ent.get('class'), ent.get('loader')
         cq = P.canon(f, cls_) if cls_ is not None else None
         probs = []
@@ -105,9 +113,18 @@ def _event_tuples(P, f):
         if isinstance(n, ast.Call) and isinstance(n.func, ast.Attribute) and n.func.attr == 'append' and n.args:
             a = n.args[0]
             t = a
-            if isinstance(a, ast.Name):
-                defs = [d for d in find_assignments(f, a.id) if isinstance(d, ast.Assign) and isinstance(d.value, ast.Tuple)]
-                t = defs[-1].value if defs else None
+            hops = 0
+            while isinstance(t, ast.Name) and hops < 4:
+                # follow plain aliases (x = event_tuple) down to the tuple display
+                hops += 1
+                defs = [d for d in find_assignments(f, t.id) if isinstance(d, ast.Assign)]
+                tup = [d for d in defs if isinstance(d.value, ast.Tuple)]
+                if tup:
+                    t = tup[-1].value
+                elif len(defs) == 1 and isinstance(defs[0].value, ast.Name):
+                    t = defs[0].value
+                else:
+                    t = None
             if isinstance(t, ast.Tuple) and len(t.elts) == 6:
                 out.append((n, t))
     return out
